@@ -33,6 +33,21 @@ theorem later_valid_messages_handled (acl : Acl) (ms : List Decoded) (m : Decode
     ((ms ++ [m]).map (handleMessage acl)).getLast? = some (handleMessage acl m) :=
   later_messages_handled acl ms m
 
+/-- the listener LOOPS (the direct-channel monitor of the instance and the topic listener of each
+store) as they are in the Go text of this run — the number of statements that would end them on an
+error is regenerated from the source (`Gen.listenerExitsOnError`) — handle every message of every
+stream: a message that `Sync` refuses does not stop the messages after it from being handled -/
+theorem listener_loop_handles_every_message (acl : Acl) (ms : List Decoded) :
+    runListener (Gen.listenerExitsOnError != 0) acl ms = ms.map (handleMessage acl) := by
+  rw [gen_listener_never_exits]; exact runListener_handles_all acl ms
+
+/-- were a `return` (or `break`) put where the loops `continue`, everything after the first refused
+message would be dropped (seeded change C12 does exactly that; the regenerated constant becomes 1 and
+the proof above no longer checks) -/
+theorem a_loop_that_left_on_error_would_drop_later_messages (acl : Acl) (m : Decoded) (ms : List Decoded)
+    (h : handleMessage acl m = .err) : runListener true acl (m :: ms) = [.err] :=
+  runListener_stopping_drops_later acl m ms h
+
 /-- no 64-bit length prefix makes the stream reader panic; what it accepts is within the limit -/
 theorem no_length_prefix_panics (len64 : BitVec 64) :
     Codec.frameGuard len64 ≠ .panic ∧
